@@ -38,6 +38,49 @@ def regen():
     return out
 
 
+def code_vocabulary():
+    """names the code base itself uses for axes and columns: identifier-like string literals of the grid / table / sampler modules and
+    of the table-building scripts shipped next to the data, and the axis names stored in the shipped table files.  A reader or writer
+    that special-cases a name will most likely special-case one of these."""
+    import ast
+    import re
+    root = REPO / "src" / "nuspacesim"
+    words = set()
+    files = [root / "utils" / f for f in ("grid.py", "cdf.py", "interp.py")] + [root / "simulation" / "taus" / "taus.py"] + sorted((root / "data").rglob("*.py"))
+    for f in files:
+        try:
+            tree = ast.parse(f.read_text())
+        except Exception:  # noqa: BLE001
+            continue
+        for node in ast.walk(tree):
+            if isinstance(node, ast.Constant) and isinstance(node.value, str) and re.fullmatch(r"[A-Za-z_][A-Za-z0-9_]{1,24}", node.value):
+                words.add(node.value)
+    try:
+        import h5py
+        for f in sorted((root / "data").rglob("*.h*5")):
+            with h5py.File(f, "r") as h:
+                h.visit(lambda nm: words.add(nm.split("/")[-1]) if re.fullmatch(r"[A-Za-z_][A-Za-z0-9_]{1,24}", nm.split("/")[-1]) else None)
+    except Exception:  # noqa: BLE001
+        pass
+    try:
+        from astropy.io import fits as _fits
+        for f in sorted((root / "data").rglob("*.fits")):
+            if f.stat().st_size > 50e6:
+                continue
+            with _fits.open(f) as hl:
+                for hdu in hl:
+                    for key in ("EXTNAME",):
+                        v = hdu.header.get(key)
+                        if isinstance(v, str) and re.fullmatch(r"[A-Za-z_][A-Za-z0-9_]{1,24}", v):
+                            words.add(v)
+                    for c in (getattr(hdu, "columns", None) or []):
+                        if re.fullmatch(r"[A-Za-z_][A-Za-z0-9_]{1,24}", c.name):
+                            words.add(c.name)
+    except Exception:  # noqa: BLE001
+        pass
+    return sorted(words)
+
+
 def rand_grid(rng, fmt):
     ndim = int(rng.integers(1, 5))
     shape = tuple(int(x) for x in rng.integers(1, 6, ndim))
@@ -244,6 +287,9 @@ def run(ctx: Ctx):
                 os.remove(pth)
     # ---------------- (a) file round trip
     n_io = 300 if ctx.thorough else 60
+    vocab = code_vocabulary()
+    ctx.extra["axis_name_vocabulary"] = {"names": len(vocab), "sample": vocab[:12]}
+    vocab_pairs = [(vocab[i], vocab[i + 1]) for i in range(0, len(vocab) - 1, 2)][: (n_io - 4 if ctx.thorough else 40)]
     for fmt, ext in (("hdf5", "h5"), ("fits", "fits")):
         for t in range(n_io):
             data, axes, names = rand_grid(rng, fmt)
@@ -256,6 +302,13 @@ def run(ctx: Ctx):
                 data = rng.standard_normal(shape)
                 axes = [np.sort(rng.uniform(-10, 10, k_)) + 100.0 * j_ for j_ in range(len(names))]
                 ctx.count("io_directed_similar_names")
+            elif vocab_pairs and t - 4 < len(vocab_pairs):
+                # directed: the code base's own vocabulary as axis names (two axes of equal length with different values)
+                names = list(vocab_pairs[t - 4])
+                k_ = int(rng.integers(2, 5))
+                data = rng.standard_normal((k_, k_))
+                axes = [np.sort(rng.uniform(-10, 10, k_)) + 100.0 * j_ for j_ in range(2)]
+                ctx.count("io_code_vocabulary_names")
             g = NssGrid(data, axes, names)
             p = os.path.join(tmp, f"g{t}.{ext}")
             if os.path.exists(p):
